@@ -193,6 +193,56 @@ def allNames (w : World) : List (List String) :=
 
 def isLive (w : World) (id : Nat) : Bool := (w.node id).isSome
 
+/-- an unnamed request for the complex `(names, sst)` made from inside `split()`; the children are the domain
+    objects of the parent that carry these names -/
+def mkCplxByNames (w : World) (c : Nat) (names : List String) (sst : List Char) (parentChildren : List Nat) : World × Out :=
+  match w.cplxs[c]? with
+  | none => (w, .fault "no-class")
+  | some cr =>
+    let eid := effId w.cplxs 5 c
+    let (r', out, ids) := complexRequest (effPrefix w.cplxs 5 c) { cr.reg with autoId := eid } w.nextId
+      { seq := some names, sst := sst, name := none, prefix_ := none }
+    let own := cr.ownId || r'.autoId != eid
+    let w1 := { w with cplxs := w.cplxs.set c { cr with reg := r', ownId := own } }
+    let children := parentChildren.filter (fun d => match w.domObj d with | some (_, o) => names.contains o.name | none => false)
+    -- `split()` yields `err.existing` when the unnamed request is refused with an existing object
+    let out' := match out with | .singletonErr (some e) => Out.ret e false | o => o
+    let w2 := w1.settle out' .cplx c children
+    let w3 := match out', ids with
+      | .ret id true, some i =>
+        { w2 with cstate := w2.cstate ++ [(id, { seq := names, sst := sst, turns := i.turns, canon := i.canon,
+                                                   name := ((r'.findId id).map (·.name)).getD "" })] }
+      | _, _ => w2
+    (w3, out')
+
+/-- `list(c.split())`: one request per connected component; a refusal without `existing` aborts, and the
+    components created by this call are released again -/
+def splitC (w : World) (id : Nat) : World × List Out :=
+  match w.cstate.lookup id, w.node id with
+  | some o, some nd =>
+    match makePairTable o.sst with
+    | .error _ => (w, [.ssErr])
+    | .ok pt =>
+      let stab := makeStrandTableList "+" o.seq
+      match splitPt (pt.length + 1) stab pt with
+      | .error _ => (w, [.fault "split"])
+      | .ok parts =>
+        let heldBefore := w.held
+        let rec go : List (List (List String) × PairTable) → World → List Out → World × List Out
+          | [], w, acc => (w, acc)
+          | p :: rest, w, acc =>
+            match strandTableToSequence "+" p.1 with
+            | .error _ => (w, acc ++ [.fault "TypeError"])
+            | .ok names =>
+              let (w', out) := w.mkCplxByNames nd.cls names (ptToDb p.2) nd.children
+              match out with
+              | .ret _ _ => go rest w' (acc ++ [out])
+              | e =>
+                -- the list being built is discarded: objects created by this call die
+                (({ w' with held := w'.held.filter (fun h => heldBefore.contains h) }).collect, [e])
+        go parts w []
+  | _, _ => (w, [.fault "dead-handle"])
+
 /-! ### complex object state -/
 
 def cset (w : World) (id : Nat) (o : CplxObj) : World :=
